@@ -37,7 +37,7 @@ def centre_row(est, kind, j):
         return None
 
 
-def check_stream(kind, p, X, mode="MT+", eps=0.0, veto=None, ylab=None, centre_at=(), presented=None):
+def check_stream(kind, p, X, mode="MT+", eps=0.0, veto=None, ylab=None, centre_at=(), presented=None, as_dtype=None):
     """present X one row at a time through the public API and check the clauses; returns list of (sig, text, i).
     At the positions in centre_at the row is replaced by the current centre of an existing category
     (samples that coincide with a category centre); the rows actually presented are appended to `presented`."""
@@ -59,12 +59,15 @@ def check_stream(kind, p, X, mode="MT+", eps=0.0, veto=None, ylab=None, centre_a
         if presented is not None:
             presented.append(x.tolist())
         Wb = [np.array(w, dtype=float).copy() for w in est.W] if hasattr(est, "W") else []
+        xin = x.reshape(1, -1)
+        if as_dtype is not None:
+            xin = xin.astype(as_dtype)      # the same values handed over as an integer array (binary data)
         try:
             with np.errstate(all="ignore"):
                 if sam is not None:
-                    sam.partial_fit(x.reshape(1, -1), np.array([ylab[i]]), match_tracking=mode, epsilon=eps)
+                    sam.partial_fit(xin, np.array([ylab[i]]), match_tracking=mode, epsilon=eps)
                 else:
-                    est.partial_fit(x.reshape(1, -1), match_tracking=mode, epsilon=eps)
+                    est.partial_fit(xin, match_tracking=mode, epsilon=eps)
         except Exception:
             return out         # totality is C04's business
         c = int(est.labels_[-1])
@@ -293,11 +296,20 @@ def stream_oracle(rng, n):
         cnt += 1
         kinds[kind] = kinds.get(kind, 0) + 1
         centre_at = set(i for i in range(2, len(X)) if rng.random() < 0.3) if rng.random() < 0.5 else set()
+        as_dtype = None
+        if kind in ("Fuzzy", "Hyper", "Ellip", "ART1", "Gauss") and rng.random() < 0.15:
+            # binary data stored as (unsigned) integers: the same categories as with the float values
+            d0 = X.shape[1] // 2 if kind == "Fuzzy" else X.shape[1]
+            raw = np.array([[float(rng.randrange(2)) for _ in range(d0)] for _ in range(len(X))])
+            if kind == "ART1":
+                raw[raw.sum(axis=1) == 0, 0] = 1.0
+            X = np.hstack([raw, 1.0 - raw]) if kind == "Fuzzy" else raw
+            as_dtype, centre_at = rng.choice(["uint8", "uint16", "int64", "bool"]), set()
         presented = []
-        for sig, text, i in check_stream(kind, p, X, mode, eps, None, y, centre_at, presented):
+        for sig, text, i in check_stream(kind, p, X, mode, eps, None, y, centre_at, presented, as_dtype):
             fails.append({"signature": sig, "text": text,
                           "replay": {"kind": kind, "params": {k: (np.asarray(v).tolist() if isinstance(v, np.ndarray) else v) for k, v in p.items()},
-                                     "X": presented, "y": y, "mode": mode, "eps": eps, "failing_sample": i,
+                                     "X": presented, "presented_as_dtype": as_dtype, "y": y, "mode": mode, "eps": eps, "failing_sample": i,
                                      "rows_that_are_category_centres": sorted(centre_at)}})
     return fails, cnt, kinds
 
